@@ -1,3 +1,2 @@
--- root of the library: every model, proof and driver module (setup.sh builds this target)
+-- root of the library; `lake build JediModel` builds every module under JediModel/ (see lakefile globs)
 import JediModel.Proto
-import JediModel.Props.C04
